@@ -20,8 +20,8 @@ import NfpmModel.Generated.G3Types
     plan_destinations_clean     absolute, lexically clean, trailing slash iff directory (root excepted)
     plan_parents_first_partial  every ancestor directory present and earlier (lists without `tree`)
     normFile_idempotent, normFile_clean, normDir_clean   (all byte strings)
-    plan_contains_nothing_else_partial  every planned entry is a produced request or an implied ancestor
-                                directory of one (lists of directory / file-like entries)
+    plan_contains_nothing_else_partial  every planned entry is a produced request, the entry made of one pair of
+                                a glob, or an implied ancestor directory of one (every list without `tree`)
     collision_* …               decision logic of the collision checks, stated outright
   Full-strength statement kept visible: `Spec.check … (plan …) = []` (refinement
   of the whole declarative spec) is NOT proved; see DESIGN.md C05 "partial".
@@ -291,20 +291,27 @@ theorem plan_ancestors_are_directories_partial (O : Oracle) (cfg : PlanCfg) (raw
   rw [normFile_join q hq hprop, normDir_join q hq hprop]
   exact ⟨hfile, hin⟩
 
-/-- **C05 – nothing else is planned** (`_partial`: lists whose relevant entries are directories and file-like entries –
-    no `tree`, no globbed file entries): every entry of an accepted plan is either exactly the entry one of the
-    relevant requests of the list produces (its own type, source, owner, mode, times, under its normalised destination)
-    or an implied directory – owner root, mode 0755, the package mtime – that is an ancestor directory of the
-    normalised destination of one of the list's entries.  Together with `plan_honours_every_accepted_request` the plan
-    is determined: the produced requests, their ancestor directories, nothing more. -/
+/-- **C05 – nothing else is planned** (`_partial`: lists whose relevant entries are directories, file-like entries and
+    globbed file / config entries – everything but `tree`): every entry of an accepted plan is
+    * exactly the entry one of the relevant directory / file-like requests of the list produces (its own type, source,
+      owner, mode, times, under its normalised destination), or
+    * the entry files.addGlobbedFiles makes of one (source, destination) pair of one of the list's globbed entries
+      (the pairs are those glob.Glob's mapping gives for the matches the file system reports), or
+    * an implied directory – owner root, mode 0755, the package mtime – that is an ancestor directory of the normalised
+      destination of one of those.
+    Together with `plan_honours_every_accepted_request` the plan is determined: the produced entries, their ancestor
+    directories, nothing more. -/
 theorem plan_contains_nothing_else_partial (O : Oracle) (cfg : PlanCfg) (raw l : List Content)
     (hcls : ∀ c ∈ raw, isRelevant cfg.packager c = true →
-      classify c.type = .dir ∨ classify c.type = .fileLike ∨ classify c.type = .implicitDir)
+      classify c.type = .dir ∨ classify c.type = .fileLike ∨ classify c.type = .implicitDir ∨ classify c.type = .globbed)
     (h : plan O cfg raw = .ok l) :
     ∀ e ∈ l,
       (∃ c ∈ raw, isRelevant cfg.packager c = true ∧ (classify c.type = .dir ∨ classify c.type = .fileLike)
           ∧ e = (plannedFor O cfg c).2)
-      ∨ (e = implicitDirEntry e.dst cfg.mtime ∧ ∃ c ∈ raw, e.dst ∈ ancestorDirs (normFile c.dst)) := by
+      ∨ (∃ ic ∈ zipIdx raw, isRelevant cfg.packager ic.2 = true ∧ classify ic.2.type = .globbed
+          ∧ ∃ p ∈ globPairs O cfg ic, e = (globEntry O cfg.umask cfg.mtime ic.2 p).2)
+      ∨ (e = implicitDirEntry e.dst cfg.mtime
+          ∧ ∃ d ∈ (zipIdx raw).flatMap (stepDs O cfg), e.dst ∈ ancestorDirs (normFile d)) := by
   obtain ⟨m, hm, hl, _⟩ := plan_ok_inv O cfg raw l h
   subst hl
   have horig := orig_planMap O cfg (zipIdx raw) [] [] [] m
@@ -317,22 +324,31 @@ theorem plan_contains_nothing_else_partial (O : Oracle) (cfg : PlanCfg) (raw l :
   rw [List.mem_mergeSort, List.mem_map] at he
   obtain ⟨p, hp, rfl⟩ := he
   rcases horig p hp with h1 | ⟨h2, d, hd, hpar⟩
-  · left
-    simp only [List.append_nil] at h1
-    unfold produced at h1
-    obtain ⟨ic, hic, rfl⟩ := List.mem_map.mp h1
-    rw [List.mem_filter] at hic
-    unfold zipIdx at hic
-    refine ⟨ic.2, (List.of_mem_zip hic.1).2, ?_, ?_, rfl⟩
-    · simpa using (of_decide_eq_true hic.2).1
-    · simpa using (of_decide_eq_true hic.2).2
-  · right
+  · simp only [List.append_nil] at h1
+    obtain ⟨ic, hic, hprod⟩ := List.mem_flatMap.mp h1
+    unfold stepProduced at hprod
+    split at hprod
+    · rename_i hrel
+      split at hprod
+      · rename_i hcl
+        simp only [List.mem_singleton] at hprod
+        left
+        unfold zipIdx at hic
+        exact ⟨ic.2, (List.of_mem_zip hic).2, hrel, Or.inl hcl, by rw [hprod]⟩
+      · rename_i hcl
+        simp only [List.mem_singleton] at hprod
+        left
+        unfold zipIdx at hic
+        exact ⟨ic.2, (List.of_mem_zip hic).2, hrel, Or.inr hcl, by rw [hprod]⟩
+      · rename_i hcl
+        obtain ⟨q, hq, rfl⟩ := List.mem_map.mp hprod
+        right; left
+        exact ⟨ic, hic, hrel, hcl, q, hq, rfl⟩
+      · simp at hprod
+    · simp at hprod
+  · right; right
     have hdst : p.2.dst = p.1 := by rw [h2]; rfl
-    refine ⟨by rw [hdst]; exact h2, ?_⟩
-    simp only [List.append_nil] at hd
-    obtain ⟨ic, hic, rfl⟩ := List.mem_map.mp hd
-    unfold zipIdx at hic
-    refine ⟨ic.2, (List.of_mem_zip hic).2, ?_⟩
+    refine ⟨by rw [hdst]; exact h2, d, by simpa using hd, ?_⟩
     rw [hdst, ← parents_eq_ancestors]
     exact hpar
 
